@@ -338,7 +338,7 @@ type c18HistDesc struct {
 }
 
 // runHist runs consecutive periods on a histogram (a new one when fresh) with one goroutine.
-func runHist(w *rig.Writer, pool *histPool, d c18HistDesc) {
+func runHist(w *rig.Writer, pool *histPool, d c18HistDesc) (rig.Case, bool) {
 	h, fresh := pool.get(d.Sampled)
 	var items []string
 	nontrivial := false
@@ -352,7 +352,7 @@ func runHist(w *rig.Writer, pool *histPool, d c18HistDesc) {
 		o, err := h.endPeriod(d.HTTP)
 		if err != nil {
 			w.Fail(rig.GoFailure{Kind: "broken-correspondence", What: "reading a histogram period failed", Input: d, Detail: err.Error()})
-			return
+			return rig.Case{}, false
 		}
 		d.Observed = append(d.Observed, o)
 		items = append(items, gal.Pair(sp.coq(), o.coq()))
@@ -379,9 +379,8 @@ func runHist(w *rig.Writer, pool *histPool, d c18HistDesc) {
 	if wraps {
 		w.Count("hist case wraps the ring")
 	}
-	var tags []string
-	w.Add(rig.Case{Desc: d, Coq: gal.App("CHist", gal.Bool(d.Sampled), gal.Bool(d.HTTP), gal.Bool(fresh), gal.List(items)),
-		Nontrivial: nontrivial, Tags: tags})
+	return rig.Case{Desc: d, Coq: gal.App("CHist", gal.Bool(d.Sampled), gal.Bool(d.HTTP), gal.Bool(fresh), gal.List(items)),
+		Nontrivial: nontrivial}, true
 }
 
 // histPool hands out histograms: new ones while the budget lasts (the package allows 1024 per
@@ -551,6 +550,9 @@ func main() {
 // portableLzcnt compiles /repo/metrics/lzcnt.go (the !amd64 implementation) as a program of its
 // own and runs it on xs.
 func portableLzcnt(out string, xs []uint64) ([]uint64, error) {
+	if a, aerr := filepath.Abs(out); aerr == nil {
+		out = a
+	}
 	dir := filepath.Join(out, "portable")
 	if err := os.MkdirAll(dir, 0o755); err != nil {
 		return nil, err
@@ -632,7 +634,8 @@ func bitsClass(x uint64) string {
 	return "value bits 64"
 }
 
-func valueInputs(e *env, r *rig.Rand) []uint64 {
+// valueInputs: the values examined one per case, and (thorough) more random ones examined in batches
+func valueInputs(e *env, r *rig.Rand) ([]uint64, []uint64) {
 	set := map[uint64]bool{}
 	add := func(x uint64) { set[x] = true }
 	for x := uint64(0); x <= 40; x++ {
@@ -650,29 +653,52 @@ func valueInputs(e *env, r *rig.Rand) []uint64 {
 	}
 	add(1<<64 - 1)
 	add(1<<64 - 2)
-	n := 10000
-	if e.tier == "thorough" {
-		n = 1000000
-	}
-	for i := 0; i < n; i++ {
+	rnd := func() uint64 {
 		x := r.U64()
-		if i%2 == 1 { // uniform in magnitude
+		if r.Bool() { // uniform in magnitude
 			x >>= uint(r.Intn(64))
 		}
-		add(x)
+		return x
+	}
+	for i := 0; i < 10000; i++ {
+		add(rnd())
 	}
 	xs := make([]uint64, 0, len(set))
 	for x := range set {
 		xs = append(xs, x)
 	}
 	sort.Slice(xs, func(i, j int) bool { return xs[i] < xs[j] })
-	return xs
+	var more []uint64
+	if e.tier == "thorough" {
+		more = make([]uint64, 990000)
+		for i := range more {
+			more[i] = rnd()
+		}
+		sort.Slice(more, func(i, j int) bool { return more[i] < more[j] })
+	}
+	return xs, more
 }
 
 func valCase(w *rig.Writer, x, lzp uint64) rig.Case {
 	d := c18ValDesc{Kind: "val", X: x, Bucket: metrics.VerifGetBucket(x), LzAsm: metrics.VerifLzcnt(x), LzPort: lzp}
 	w.Count(bitsClass(x))
 	return rig.Case{Desc: d, Coq: gal.App("CVal", gal.N(x), gal.N(d.Bucket), gal.N(d.LzAsm), gal.N(d.LzPort)), Nontrivial: x > 15}
+}
+
+type c18BatchDesc struct {
+	Kind string   `json:"kind"` // "batch"
+	Xs   []uint64 `json:"xs"`   // increasing
+}
+
+// batchCase: many values in one case (thorough tier): every value as in a "val" case, every
+// adjacent pair as in a "mono" case.
+func batchCase(w *rig.Writer, xs, lzp []uint64) rig.Case {
+	items := make([]string, len(xs))
+	for i, x := range xs {
+		items[i] = gal.Tuple(gal.N(x), gal.N(metrics.VerifGetBucket(x)), gal.N(metrics.VerifLzcnt(x)), gal.N(lzp[i]))
+		w.Count(bitsClass(x))
+	}
+	return rig.Case{Desc: c18BatchDesc{Kind: "batch", Xs: xs}, Coq: gal.App("CBatch", gal.List(items)), Nontrivial: true}
 }
 
 func monoCase(w *rig.Writer, n, m uint64) rig.Case {
@@ -710,7 +736,7 @@ func readCounter(name string) (uint64, error) {
 	return strconv.ParseUint(ls[0].val, 10, 64)
 }
 
-func runCounter(w *rig.Writer, d c18CounterDesc, pre []uint64) {
+func runCounter(w *rig.Writer, d c18CounterDesc, pre []uint64) (rig.Case, bool) {
 	name := fmt.Sprintf("verifc18c%d", atomic.AddInt32(&c18CounterN, 1))
 	id := metrics.AddCounter(name, nil)
 	for _, a := range pre { // bring the counter near the wrap-around point if asked
@@ -719,7 +745,7 @@ func runCounter(w *rig.Writer, d c18CounterDesc, pre []uint64) {
 	before, err := readCounter(name)
 	if err != nil {
 		w.Fail(rig.GoFailure{Kind: "broken-correspondence", What: "reading a counter from /metrics failed", Input: d, Detail: err.Error()})
-		return
+		return rig.Case{}, false
 	}
 	var wg sync.WaitGroup
 	start := make(chan struct{})
@@ -756,7 +782,7 @@ func runCounter(w *rig.Writer, d c18CounterDesc, pre []uint64) {
 	after, err := readCounter(name)
 	if err != nil {
 		w.Fail(rig.GoFailure{Kind: "broken-correspondence", What: "reading a counter from /metrics failed", Input: d, Detail: err.Error()})
-		return
+		return rig.Case{}, false
 	}
 	d.Before, d.After = before, after
 	adds := make([]string, len(d.Adds))
@@ -766,10 +792,7 @@ func runCounter(w *rig.Writer, d c18CounterDesc, pre []uint64) {
 		total += len(l)
 	}
 	w.Count(fmt.Sprintf("counter goroutines=%d", len(d.Adds)))
-	w.Add(rig.Case{Desc: d, Coq: gal.App("CCounter", gal.N(before), gal.List(adds), gal.N(after)), Nontrivial: len(d.Adds) > 1 && total > 1})
-}
-
-func counterCases(e *env, r *rig.Rand, race bool) {
+	return rig.Case{Desc: d, Coq: gal.App("CCounter", gal.N(before), gal.List(adds), gal.N(after)), Nontrivial: len(d.Adds) > 1 && total > 1}, true
 }
 
 // ---------------------------------------------------------------- concurrent observers + reader
@@ -783,7 +806,7 @@ type c18ConcDesc struct {
 	Observed []obsRep  `json:"observed,omitempty"`
 }
 
-func runConc(w *rig.Writer, d c18ConcDesc) {
+func runConc(w *rig.Writer, d c18ConcDesc) (rig.Case, bool) {
 	h := c18NewHist(d.Sampled)
 	lists := make([][]uint64, len(d.Workers))
 	var total uint64
@@ -816,24 +839,13 @@ func runConc(w *rig.Writer, d c18ConcDesc) {
 			for atomic.LoadUint64(&progress) < target {
 				runtime.Gosched()
 			}
-			if d.HTTP {
-				// the real reporting path runs concurrently with the observers; what it reports is
-				// read back through the hook-free text
-				o, err := h.endPeriod(true)
-				if err != nil {
-					rerr = err
-					return
-				}
-				_ = o
-				d.Observed = append(d.Observed, o)
-			} else {
-				o, err := h.endPeriod(false)
-				if err != nil {
-					rerr = err
-					return
-				}
-				d.Observed = append(d.Observed, o)
+			// d.HTTP: the real reporting path (printMetrics) runs concurrently with the observers
+			o, err := h.endPeriod(d.HTTP)
+			if err != nil {
+				rerr = err
+				return
 			}
+			d.Observed = append(d.Observed, o)
 		}
 	}()
 	close(start)
@@ -846,7 +858,7 @@ func runConc(w *rig.Writer, d c18ConcDesc) {
 	}
 	if rerr != nil {
 		w.Fail(rig.GoFailure{Kind: "broken-correspondence", What: "reading a histogram period failed (concurrent run)", Input: d, Detail: rerr.Error()})
-		return
+		return rig.Case{}, false
 	}
 	nonempty := 0
 	reps := make([]string, len(d.Observed))
@@ -859,7 +871,7 @@ func runConc(w *rig.Writer, d c18ConcDesc) {
 	w.Count(fmt.Sprintf("conc goroutines=%d", len(d.Workers)))
 	w.Count(fmt.Sprintf("conc periods with observations=%d", nonempty))
 	all := obsSpec{Kind: "cat", Parts: d.Workers}
-	w.Add(rig.Case{Desc: d, Coq: gal.App("CConc", gal.Bool(d.Sampled), all.coq(), gal.List(reps)), Nontrivial: len(d.Workers) > 1 && nonempty > 1})
+	return rig.Case{Desc: d, Coq: gal.App("CConc", gal.Bool(d.Sampled), gal.Bool(d.HTTP), all.coq(), gal.List(reps)), Nontrivial: len(d.Workers) > 1 && nonempty > 1}, true
 }
 
 func concCases(e *env, r *rig.Rand, race bool) ([]c18ConcDesc, []c18CounterDesc) {
@@ -867,7 +879,7 @@ func concCases(e *env, r *rig.Rand, race bool) ([]c18ConcDesc, []c18CounterDesc)
 	var ks []c18CounterDesc
 	nconc, per := 12, uint64(4000)
 	if e.tier == "thorough" {
-		nconc, per = 60, 20000
+		nconc, per = 40, 10000
 	}
 	for i := 0; i < nconc; i++ {
 		g := 2 + r.Intn(7)
@@ -951,21 +963,37 @@ func c18(e *env) {
 	runtime.GC()
 
 	// values
-	xs := valueInputs(e, r)
-	lzp, err := portableLzcnt(e.out, xs)
+	xs, more := valueInputs(e, r)
+	lzpAll, err := portableLzcnt(e.out, append(append([]uint64(nil), xs...), more...))
 	if err != nil {
 		w.Fail(rig.GoFailure{Kind: "broken-correspondence", What: "the portable lzcnt of /repo/metrics/lzcnt.go could not be compiled and run", Input: map[string]string{"kind": "portable-lzcnt"}, Detail: err.Error()})
-		lzp = make([]uint64, len(xs))
-		for i, x := range xs {
-			lzp[i] = metrics.VerifLzcnt(x)
+		lzpAll = make([]uint64, len(xs)+len(more))
+		for i := range lzpAll {
+			if i < len(xs) {
+				lzpAll[i] = metrics.VerifLzcnt(xs[i])
+			} else {
+				lzpAll[i] = metrics.VerifLzcnt(more[i-len(xs)])
+			}
 		}
 	}
+	lzp := lzpAll[:len(xs)]
 	var light []rig.Case
 	for i, x := range xs {
 		light = append(light, valCase(w, x, lzp[i]))
 		if i > 0 {
 			light = append(light, monoCase(w, xs[i-1], x))
 		}
+	}
+	const batch = 250
+	for i := 0; i < len(more); i += batch {
+		j := i + batch
+		if j > len(more) {
+			j = len(more)
+		}
+		light = append(light, batchCase(w, more[i:j], lzpAll[len(xs)+i:len(xs)+j]))
+	}
+	if len(more) > 0 {
+		w.Res.Stats["extra_evaluations"] = 2*len(more) - 2*((len(more)+batch-1)/batch)
 	}
 	for i := 0; i < len(xs)/4; i++ { // distant pairs as well
 		a, b := xs[r.Intn(len(xs))], xs[r.Intn(len(xs))]
@@ -976,24 +1004,27 @@ func c18(e *env) {
 	}
 
 	// histograms, counters, concurrency: run now, spread over the shards afterwards
-	hw := rig.NewWriter(e.out, "C18", e.tier, e.seed)
+	var heavy []rig.Case
+	keep := func(c rig.Case, ok bool) {
+		if ok {
+			heavy = append(heavy, c)
+		}
+	}
 	for _, d := range histCases(e, r) {
-		runHist(hw, pool, d)
+		keep(runHist(w, pool, d))
 	}
 	cs, ks := concCases(e, r, false)
-	for _, d := range cs {
-		runConc(hw, d)
+	for i, d := range cs {
+		d.HTTP = i%4 == 1
+		keep(runConc(w, d))
 	}
 	for i, d := range ks {
 		var pre []uint64
 		if i%3 == 0 {
 			pre = []uint64{1<<64 - 1 - uint64(r.Intn(100000))}
 		}
-		runCounter(hw, d, pre)
+		keep(runCounter(w, d, pre))
 	}
-	heavy := hw.Res.Cases
-	w.Res.GoFailures = append(w.Res.GoFailures, hw.Res.GoFailures...)
-	hw.MergeCountsInto(w)
 
 	// interleave: the heavy cases evenly among the light ones, so that every shard gets its share
 	w.Shards = 8
@@ -1026,12 +1057,17 @@ func c18child(e *env) {
 	r := rig.NewRand(e.seed)
 	runtime.GC()
 	cs, ks := concCases(e, r, true)
+	add := func(c rig.Case, ok bool) {
+		if ok {
+			w.Add(c)
+		}
+	}
 	for i, d := range cs {
 		d.HTTP = i%2 == 0 // the real reporting path (getAllHistograms, getAllBucketHistograms) half of the time
-		runConc(w, d)
+		add(runConc(w, d))
 	}
 	for _, d := range ks {
-		runCounter(w, d, nil)
+		add(runCounter(w, d, nil))
 	}
 	c18Finish(w)
 }
@@ -1127,6 +1163,11 @@ func c18Replay(e *env, w *rig.Writer, file string) {
 	}
 	runtime.GC()
 	pool := &histPool{budget: 4, last: map[bool]*c18Hist{}}
+	add := func(c rig.Case, ok bool) {
+		if ok {
+			w.Add(c)
+		}
+	}
 	switch k.Kind {
 	case "val", "mono":
 		var d c18ValDesc
@@ -1143,24 +1184,35 @@ func c18Replay(e *env, w *rig.Writer, file string) {
 			break
 		}
 		w.Add(valCase(w, d.X, lzp[0]))
+	case "batch":
+		var d c18BatchDesc
+		if err := json.Unmarshal(b, &d); err != nil {
+			rig.Die("replay input: %v", err)
+		}
+		lzp, err := portableLzcnt(e.out, d.Xs)
+		if err != nil {
+			w.Fail(rig.GoFailure{Kind: "broken-correspondence", What: "the portable lzcnt of /repo/metrics/lzcnt.go could not be compiled and run", Input: d, Detail: err.Error()})
+			break
+		}
+		w.Add(batchCase(w, d.Xs, lzp))
 	case "hist":
 		var d c18HistDesc
 		if err := json.Unmarshal(b, &d); err != nil {
 			rig.Die("replay input: %v", err)
 		}
-		runHist(w, pool, d)
+		add(runHist(w, pool, d))
 	case "conc":
 		var d c18ConcDesc
 		if err := json.Unmarshal(b, &d); err != nil {
 			rig.Die("replay input: %v", err)
 		}
-		runConc(w, d)
+		add(runConc(w, d))
 	case "counter":
 		var d c18CounterDesc
 		if err := json.Unmarshal(b, &d); err != nil {
 			rig.Die("replay input: %v", err)
 		}
-		runCounter(w, d, nil)
+		add(runCounter(w, d, nil))
 	case "portable-lzcnt":
 		if _, err := portableLzcnt(e.out, []uint64{0, 1}); err != nil {
 			w.Fail(rig.GoFailure{Kind: "broken-correspondence", What: "the portable lzcnt of /repo/metrics/lzcnt.go could not be compiled and run", Input: map[string]string{"kind": "portable-lzcnt"}, Detail: err.Error()})
